@@ -194,3 +194,165 @@ pub const EMBEDDED: &[&[u8]] = &[
 pub fn bvec(v: Vec<u8>) -> B {
     B(v)
 }
+
+// ---------------------------------------------------------------------------------------------
+// size / offset sweeps: constructs whose inner length is a parameter, placed at a parameterised
+// offset — scanners that work in 16/32/64-byte blocks, buffers that grow by doubling and
+// positions that pass 255 / 65 535 take other paths than on the short enumerated inputs
+
+pub const CONSTRUCT_KINDS: u64 = 14;
+
+fn rep(b: &[u8], n: usize) -> Vec<u8> {
+    let mut v = Vec::with_capacity(b.len() * n);
+    for _ in 0..n {
+        v.extend_from_slice(b);
+    }
+    v
+}
+
+/// one construct of the given kind whose variable part is `q` bytes (or items) long
+pub fn construct(kind: u64, q: usize, var: u64) -> Vec<u8> {
+    let fill: &[u8] = [&b"x"[..], &b"-"[..], &b"]"[..], &b"?"[..], &b" "[..], &b"\xc3\xa9"[..], &b"'"[..], &b">"[..]][(var % 8) as usize];
+    let mut v = vec![];
+    match kind % CONSTRUCT_KINDS {
+        0 => v.extend(rep(if fill == b">" || fill == b" " { b"x" } else { fill }, q)),
+        1 => {
+            v.extend_from_slice(b"<a");
+            v.extend(rep(b"b", q));
+            v.extend_from_slice(if var % 2 == 0 { b">" } else { b"/>" });
+        }
+        2 => {
+            let (qo, qi): (&[u8], &[u8]) = if var % 2 == 0 { (b"\"", b"'") } else { (b"'", b"\"") };
+            v.extend_from_slice(b"<a k=");
+            v.extend_from_slice(qo);
+            v.extend(rep(if fill == qo { b"x" } else { fill }, q));
+            v.extend_from_slice(b">");
+            v.extend_from_slice(qi);
+            v.extend_from_slice(qo);
+            v.extend_from_slice(b" j='2'>");
+        }
+        3 => {
+            v.extend_from_slice(b"<a");
+            for i in 0..q {
+                v.extend_from_slice(format!(" k{}=\"{}\"", i, i % 7).as_bytes());
+            }
+            v.extend_from_slice(if var % 2 == 0 { b">" } else { b"/>" });
+        }
+        4 => {
+            v.extend_from_slice(b"<a");
+            v.extend(rep(if var % 2 == 0 { b" " } else { b"\n" }, q));
+            v.extend_from_slice(b"/>");
+        }
+        5 => {
+            v.extend_from_slice(b"</a");
+            v.extend(rep(if var % 2 == 0 { b" " } else { b"\t" }, q));
+            v.extend_from_slice(b">");
+        }
+        6 => {
+            v.extend_from_slice(b"<!--");
+            v.extend(rep(if fill == b"-" { b"- " } else { fill }, q));
+            v.extend_from_slice(if var % 3 == 0 { b"-x-->" } else { b"-->" });
+        }
+        7 => {
+            v.extend_from_slice(b"<![CDATA[");
+            v.extend(rep(fill, q));
+            v.extend_from_slice(if var % 3 == 0 { b"]]x]]>" } else { b"]]>" });
+        }
+        8 => {
+            v.extend_from_slice(b"<?pi ");
+            v.extend(rep(fill, q));
+            v.extend_from_slice(if var % 3 == 0 { b"?x?>" } else { b"?>" });
+        }
+        9 => {
+            v.extend_from_slice(b"<!DOCTYPE r [<!ENTITY e ");
+            v.extend(rep(b"x", q));
+            v.extend_from_slice(b"><!ELEMENT r (a|<b <c>>)>]>");
+        }
+        10 => {
+            let ws: &[u8] = [&b" "[..], b"\n", b"\r\n", b"\t "][(var % 4) as usize];
+            v.extend(rep(ws, q));
+            v.extend_from_slice(b"t");
+            v.extend(rep(ws, q));
+        }
+        11 => {
+            let r: &[u8] = [&b"&amp;"[..], b"&#65;", b"&lt;x", b"a&gt;"][(var % 4) as usize];
+            v.extend(rep(r, q));
+        }
+        12 => {
+            v.extend_from_slice(b"<?xml version=\"1.0\"");
+            v.extend(rep(b" ", q));
+            v.extend_from_slice(b"?>");
+        }
+        _ => {
+            // nesting q deep
+            v.extend(rep(b"<d>", q));
+            v.extend_from_slice(b"t");
+            v.extend(rep(b"</d>", q));
+        }
+    }
+    v
+}
+
+/// `prefix(p) + construct(kind, q) + tail`
+pub fn sweep_input(kind: u64, p: usize, q: usize, var: u64) -> Vec<u8> {
+    let mut v = match (var / 8) % 4 {
+        0 => rep(b"x", p),
+        1 => rep(b" ", p),
+        2 => {
+            let mut t = rep(b"<b/>", p / 4);
+            t.extend(rep(b"y", p % 4));
+            t
+        }
+        _ => {
+            let mut t = b"<r>".to_vec();
+            t.extend(rep(b"\xc3\xa9", p / 2));
+            t.extend(rep(b"z", p % 2));
+            t
+        }
+    };
+    v.extend(construct(kind, q, var));
+    v.extend_from_slice([&b"<c/>t"[..], b"", b" </a>", b"<"][((var / 32) % 4) as usize]);
+    v
+}
+
+/// lengths around the usual thresholds (block sizes, capacity doublings, u8/u16 positions, the
+/// default BufReader capacity)
+pub const BIG_LENGTHS: &[usize] = &[255, 256, 257, 511, 512, 513, 1000, 4095, 4096, 4097, 8191, 8192, 8193, 20000, 65535, 65536, 65537, 70001];
+
+/// number of (kind, p, q, var) combinations of the offset sweep with p <= pmax, q <= qmax
+pub fn sweep_count(pmax: u64, qmax: u64, vars: u64) -> u64 {
+    CONSTRUCT_KINDS * (pmax + 1) * (qmax + 1) * vars
+}
+
+pub fn sweep_nth(i: u64, pmax: u64, qmax: u64, vars: u64) -> Vec<u8> {
+    let var_i = i % vars;
+    let i = i / vars;
+    let q = i % (qmax + 1);
+    let i = i / (qmax + 1);
+    let p = i % (pmax + 1);
+    let kind = i / (pmax + 1);
+    // spread the variants over the whole var space deterministically
+    let var = var_i.wrapping_mul(37).wrapping_add(kind * 11 + p * 5 + q * 3) % 128;
+    sweep_input(kind, p as usize, q as usize, var)
+}
+
+/// the i-th large input: construct kind x big length x variant, with a short or long prefix
+pub fn big_count() -> u64 {
+    CONSTRUCT_KINDS * BIG_LENGTHS.len() as u64 * 4
+}
+pub fn big_nth(i: u64) -> Vec<u8> {
+    let var = i % 4;
+    let i = i / 4;
+    let len = BIG_LENGTHS[(i % BIG_LENGTHS.len() as u64) as usize];
+    let kind = i / BIG_LENGTHS.len() as u64;
+    // many attributes / deep nesting: the parameter counts items, keep the byte size comparable
+    let q = match kind % CONSTRUCT_KINDS {
+        3 => len / 8,
+        10 => len / 2,
+        11 => len / 5,
+        13 => (len / 7).min(3000),
+        _ => len,
+    };
+    let p = [0usize, 3, 250, 8190][var as usize];
+    sweep_input(kind, p, q, var * 41 + kind)
+}
